@@ -47,6 +47,22 @@ def addCookie (h : Hdr) (c : Cookie) : Hdr :=
   let cur := hdrFirst h sCookie
   hdrSet h sCookie [if cur.isEmpty then cookiePair c else cur ++ [59, 32] ++ cookiePair c]
 
+/-- join with `"; "`. -/
+def joinCookieLines : List Bytes → Bytes
+  | [] => []
+  | [l] => l
+  | l :: ls => l ++ [59, 32] ++ joinCookieLines ls
+
+/-- `Client.roundTrip` WITH `fixes/C01-4` applied: before the cookie objects are added, SEVERAL
+field lines under the key `Cookie` are folded into one (`"; "` between the non-empty ones), because
+`http.Request.AddCookie` rewrites the field from its first line only (`Header.Get` + `Header.Set`)
+and would drop the others. One line, or no cookie object: untouched. -/
+def foldCookieLines (h : Hdr) : Hdr :=
+  h.map fun kv =>
+    if kv.key == sCookie && kv.values.length > 1 then
+      ⟨kv.key, [joinCookieLines (kv.values.filter fun l => !l.isEmpty)]⟩
+    else kv
+
 /-- `parseRequestHeader`: a client-level key fills a request key only when the request has no
 value under EXACTLY that key (no case folding). `none` = `c.Headers == nil`. -/
 def mergeHeaders (ch : Option Hdr) (rh : Hdr) : Hdr :=
@@ -119,7 +135,7 @@ def buildRequest (a : Api) : Except Url.Err HttpReq := do
   let body := if payloadForbid a.allowGetPayload a.method then BodySpec.none else a.body
   let hostHdr := hdrFirst h1 sHost
   let host := if hostHdr.isEmpty then u.host else hostHdr
-  let h2 := cookies.foldl addCookie h1
+  let h2 := if cookies.isEmpty then h1 else cookies.foldl addCookie (foldCookieLines h1)
   let (cl, hasBody, bytes, gb) := match body with
     | .none => (0, false, [], false)
     | .bytes b => (b.length, true, b, true)
